@@ -36,7 +36,13 @@ static void sp_run(int k, uint64_t idx) { space_pt p = space_decode(&SP[k], idx)
 #define SPFN(k) static void run##k(uint64_t i) { sp_run(k, i); } static void desc##k(uint64_t i, FILE *o) { space_desc(&SP[k], i, o); }
 SPFN(0) SPFN(1) SPFN(2) SPFN(3) SPFN(4) SPFN(5) SPFN(6) SPFN(7) SPFN(8) SPFN(9)
 
+#ifdef kUseObjectPool
 static const int CTX4[4] = { 0, 1, 3, 4 };
+#define CTX4_NAME "{bare, list, quote, table cell}"
+#else
+static const int CTX4[4] = { 2, 5, 6, 7 };
+#define CTX4_NAME "{nested list, heading, footnote, definition}"
+#endif
 static const int CTX8[8] = { 0, 1, 2, 3, 4, 5, 6, 7 };
 static const int CTX2[2] = { 0, 6 };
 static const short FMT5[5] = { FORMAT_HTML, FORMAT_LATEX, FORMAT_FODT, FORMAT_OPML, FORMAT_EPUB };
@@ -277,7 +283,7 @@ int main(int argc, char **argv) {
 	(void)F1;
 	uint64_t cmq = k_seq_count(NCM, 1, 3), cmt = k_seq_count(NCM, 1, 4), cmr2 = k_seq_count(NCM, 1, 2), cmr3 = k_seq_count(NCM, 1, 3);
 	k_level L[] = {
-		{ "q_inline2", space_count(&SP[0]), run0, desc0, "qt", "inline+invalid-byte fragments, len<=2 x 4 contexts x 13 formats x {default,compat}" },
+		{ "q_inline2", space_count(&SP[0]), run0, desc0, "qt", "inline+invalid-byte fragments, len<=2 x contexts " CTX4_NAME " x 13 formats x {default,compat}" },
 		{ "q_lines2", space_count(&SP[1]), run1, desc1, "qt", "line fragments len<=2 x 13 formats x 4 extension sets" },
 		{ "q_macro1", space_count(&SP[2]), run2, desc2, "qt", "macro fragments x 13 formats x 8 extension sets" },
 		{ "q_extsub", n_extsub_q * 6 * NFORMATS, run_extq, desc_extq, "qt", "extension subsets with <=2 bits set or <=2 clear (of 17) x 6 pivots x 13 formats" },
